@@ -102,7 +102,15 @@ class NarwhalsMaterializer(FormulaMaterializer):
         if drop_rows:
             values = drop_nulls(values, indices=drop_rows)
         if nw.dependencies.is_narwhals_series(values):
-            values = values.to_pandas()
+            native = nw.to_native(values)
+            if nw.dependencies.is_pyarrow_chunked_array(native):
+                # Convert via pyarrow itself: `narwhals.Series.to_pandas()`
+                # decodes dictionary (categorical) arrays into plain values,
+                # which loses the declared level order, levels without rows,
+                # and maps nulls onto a level.
+                values = native.to_pandas()
+            else:
+                values = values.to_pandas()
 
         return as_columns(
             encode_contrasts(
